@@ -398,6 +398,7 @@ def run(ctx):
     ctx.attempt(preselection_rule, ctx)
     ctx.attempt(projector_rule, ctx, lib)
     ctx.attempt(reflection_orientation_rule, ctx, lib)
+    ctx.attempt(surface_normal_rule, ctx, lib)
     ctx.attempt(evaluation_order_rule, ctx, lib)
     ctx.attempt(distorted_selection_rule, ctx, lib)
     from .c07 import weighted_jacobian_rule as _weighted_jacobian_rule
@@ -990,7 +991,7 @@ def reflection_orientation_rule(ctx, lib, rid="R8.18"):
         dN_pg = XArray((1, ed.dim, nPe), [vals[k][a] for k in range(ed.dim) for a in range(nPe)])
 
         def normals(coords):
-            obj = XObj(ge, {"dim": ed.dim, "coord": XArray((nPe, 3), [v for p in coords for v in p]), "connect": XArray((1, nPe), list(range(nPe))), "_global_to_local_nodes": XArray((nPe,), list(range(nPe))), "Get_dN_pg": lambda mt=None: dN_pg, "Ncoords": nPe, "nodes": XArray((nPe,), list(range(nPe)))})
+            obj = XObj(ge, {"dim": ed.dim, "order": ed.order, "coord": XArray((nPe, 3), [v for p in coords for v in p]), "connect": XArray((1, nPe), list(range(nPe))), "_global_to_local_nodes": XArray((nPe,), list(range(nPe))), "Get_dN_pg": lambda mt=None: dN_pg, "Ncoords": nPe, "nodes": XArray((nPe,), list(range(nPe)))})
             I = Interp(repo)
             I.call_hook = fe_hook_full
             return XArray.from_nested(I.call_function(f, [Opaque("mt"), None, False], self_obj=obj))
@@ -1108,13 +1109,15 @@ def distorted_selection_rule(ctx, lib):
 
     repo = ctx.repo
     ge = repo.cls(GE)
-    r = ctx.rule("R8.20", "inverse map of a distorted QUAD4: the exact reference coordinates are returned for the element as meshed and mirrored (the iterative inversion is selected for both orientations)", min_instances=2)
+    r = ctx.rule("R8.20", "inverse map of a distorted QUAD4: the exact reference coordinates are returned for the element as meshed and mirrored (the iterative inversion is selected for both orientations), also for query points on an edge and at a node of the element", min_instances=4)
     ed = lib.get("QUAD4")
     Ns = [ed.tables["N"][1][i, 0] for i in range(4)]
     f = repo.lookup_method(ed.cls, "_Get_Mapping")
     gp = [(Q(-1, 2), Q(-1, 2)), (Q(1, 2), Q(-1, 2)), (Q(1, 2), Q(1, 2)), (Q(-1, 2), Q(1, 2))]
-    xi_star = (Q(1, 3), Q(2, 5))  # not on the curve (xi + eta) / 2 + xi eta = 0 where the affine shortcut about the first Gauss point happens to be exact
-    for label, mirror in (("as meshed", False), ("mirrored (x -> -x)", True)):
+    # (1/3, 2/5) is not on the curve (xi + eta) / 2 + xi eta = 0 where the affine shortcut about the first Gauss point happens to be
+    # exact; (1, 2/5) lies on an edge and (-1, 1) is a node of the reference element: located points very often are
+    for label, mirror, xi_star in (("as meshed", False, (Q(1, 3), Q(2, 5))), ("mirrored (x -> -x)", True, (Q(1, 3), Q(2, 5))),
+                                   ("as meshed, point on an edge", False, (Q(1), Q(2, 5))), ("as meshed, point at a node", False, (Q(-1), Q(1)))):
         r.instance(fn=f.qualname)
         obj = lib.make_obj("QUAD4")
         a = obj.attrs
@@ -1138,7 +1141,18 @@ def distorted_selection_rule(ctx, lib):
         def hook(fn, args, kwargs):
             if isinstance(fn, Opaque) and fn.tag.endswith("least_squares"):
                 calls.append(1)
-                return SimpleNamespace(x=XArray((2,), list(xi_star)))
+                root = list(xi_star)
+                bnd = kwargs.get("bounds", args[3] if len(args) > 3 else None)
+                if bnd is not None and kwargs.get("method", "trf") != "dogbox":
+                    # scipy: with bounds the default 'trf' method keeps its iterates STRICTLY feasible: a root lying on a bound is
+                    # approached, never returned (an error of the order of sqrt(eps) remains): modelled by an offset delta > 0
+                    lo_b, hi_b = (list(XArray.from_nested(b).data) if isinstance(b, (list, tuple, XArray)) else [b, b] for b in bnd)
+                    lo_b, hi_b = (lo_b * 2)[:2], (hi_b * 2)[:2]
+                    dlt = Poly.var("delta_bounded_solver")
+                    root = [v + dlt if v == lo_b[k] else v - dlt if v == hi_b[k] else v for k, v in enumerate(root)]
+                    if root != list(xi_star):
+                        calls.append("bounded")
+                return SimpleNamespace(x=XArray((2,), root))
             fi = fn if isinstance(fn, FuncInfo) else getattr(fn, "finfo", None)
             if isinstance(fi, FuncInfo) and fi.module.name.startswith("EasyFEA.Utilities") and fi.name in ("Tic", "Tac", "_CheckIsVector"):
                 return Sink()
@@ -1156,4 +1170,54 @@ def distorted_selection_rule(ctx, lib):
         if all(is_zero(Poly.of(g) - w) for g, w in zip(got, xi_star)):
             r.ok(f"general QUAD4 {label}: xi* recovered ({'iterative inversion' if calls else 'closed form'})")
         else:
-            r.fail(f.qualname, f"distorted:{label}", f.file, f.lineno, "_GroupElem._Get_Mapping", f"general QUAD4 {label}, query point x(xi*) with xi* = {tuple(str(v) for v in xi_star)}: reference coordinates {tuple(str(g) for g in got)} are returned ({'the iterative inversion was not selected: ' if not calls else ''}the affine closed form is not the inverse map of a distorted element): a nodal field of the element's order is not reproduced there")
+            r.fail(f.qualname, f"distorted:{label}", f.file, f.lineno, "_GroupElem._Get_Mapping", f"general QUAD4 {label}, query point x(xi*) with xi* = {tuple(str(v) for v in xi_star)}: reference coordinates {tuple(str(g) for g in got)} are returned ({'the iterative inversion was not selected: ' if not calls else ''}the affine closed form is not the inverse map of a distorted element{'; the solver is called with bounds equal to the reference element, whose boundary a strictly-feasible method never reaches: points on edges and nodes are located to about 1e-8 only' if 'bounded' in calls else ''}): a nodal field of the element's order is not reproduced there")
+
+
+def surface_normal_rule(ctx, lib, rid="R8.22"):
+    """'boundary element groups carry outward normals that close the domain (the integral of the normal over the whole
+    boundary vanishes and the flux of the position vector gives the positive area or volume) ... in 3D': the
+    un-normalised normal of a face is the AREA-weighted normal dx/dr x dx/ds at each integration point - its length is the
+    surface Jacobian there.  `Get_normals_e_pg(normalize=False)` is interpreted on a straight-sided, non-parallelogram
+    QUAD4 face lying in an inclined plane of 3-D space (the Jacobian varies over the element although the element is of
+    order 1 and flat) and on a TRI3 face, with the real derivative tables at the points of the mass rule; every
+    n[e, p] must equal the cross product of the tangents AT that point, computed from the tables."""
+    from ..femchain import fe_hook_full
+
+    repo = ctx.repo
+    ge = repo.cls(GE)
+    f = ge.methods["Get_normals_e_pg"]
+    r = ctx.rule(rid, "area-weighted normals: Get_normals_e_pg(normalize=False)[e, p] == dx/dr(p) x dx/ds(p) at every integration point of a non-parallelogram QUAD4 face and of a TRI3 face in an inclined plane", min_instances=2)
+    for name, quad2d in (("QUAD4", [(Q(0), Q(0)), (Q(2), Q(1, 4)), (Q(9, 4), Q(2)), (Q(-1, 3), Q(3, 2))]), ("TRI3", [(Q(0), Q(0)), (Q(2), Q(1, 4)), (Q(1, 2), Q(3))])):
+        r.instance(fn=f.qualname)
+        ed = lib.get(name)
+        nPe = ed.nPe
+        # the plane z = x / 2 - y / 3 (exact rational coordinates)
+        pts = [[x, y, x / 2 - y / 3] for x, y in quad2d]
+        gp = [(Q(-1, 2), Q(-1, 2)), (Q(1, 2), Q(-1, 2)), (Q(1, 2), Q(1, 2)), (Q(-1, 2), Q(1, 2))] if name == "QUAD4" else [(Q(1, 6), Q(1, 6)), (Q(2, 3), Q(1, 6)), (Q(1, 6), Q(2, 3))]
+        dNt = ed.tables["dN"][1]  # (nPe, dim) polynomials
+        dvals = [[[Poly.of(dNt[a, k]).eval(dict(zip(ed.vars, g))) for a in range(nPe)] for k in range(ed.dim)] for g in gp]
+        dN_pg = XArray((len(gp), ed.dim, nPe), [dvals[p][k][a] for p in range(len(gp)) for k in range(ed.dim) for a in range(nPe)])
+        obj = XObj(ge, {"dim": ed.dim, "order": ed.order, "coord": XArray((nPe, 3), [v for p in pts for v in p]), "connect": XArray((1, nPe), list(range(nPe))),
+                        "_global_to_local_nodes": XArray((nPe,), list(range(nPe))), "Get_dN_pg": lambda mt=None: dN_pg, "Ncoords": nPe, "nodes": XArray((nPe,), list(range(nPe))), "Ne": 1})
+        I = Interp(repo)
+        I.call_hook = fe_hook_full
+        try:
+            n = XArray.from_nested(I.call_function(f, [Opaque("mt"), None, False], self_obj=obj))
+        except XRaise as e:
+            r.fail(f.qualname, f"area-normal:{name}", f.file, f.lineno, "Get_normals_e_pg", f"{name}: raises {e}")
+            continue
+        bad = None
+        if n.shape != (1, len(gp), 3):
+            bad = f"shape {n.shape}, expected (Ne, nPg, 3) = (1, {len(gp)}, 3)"
+        else:
+            for p in range(len(gp)):
+                ta = [sum((dvals[p][0][a] * pts[a][c] for a in range(nPe)), Q(0)) for c in range(3)]
+                tb = [sum((dvals[p][1][a] * pts[a][c] for a in range(nPe)), Q(0)) for c in range(3)]
+                want = [ta[1] * tb[2] - ta[2] * tb[1], ta[2] * tb[0] - ta[0] * tb[2], ta[0] * tb[1] - ta[1] * tb[0]]
+                got = [n[0, p, c] for c in range(3)]
+                if bad is None and any(not is_zero(Poly.of(g) - w) for g, w in zip(got, want)):
+                    bad = f"integration point {p}: n = {[str(g) for g in got]}, dx/dr x dx/ds there = {[str(w) for w in want]}"
+        if bad:
+            r.fail(f.qualname, f"area-normal:{name}", f.file, f.lineno, "Get_normals_e_pg", f"{name} face in the plane z = x/2 - y/3: {bad}: the length of the un-normalised normal is not the surface Jacobian at that point - the sum of w n over a closed boundary does not vanish and the flux of the position vector is not the volume")
+        else:
+            r.ok(f"{name}: n[e, p] == dx/dr x dx/ds at the {len(gp)} integration points")
